@@ -1457,7 +1457,8 @@ def conclude(prop, tier, results, known, outdir, t0):
         for it in items:
             if it[0] not in seen_f:
                 seen_f.add(it[0]); cands.append(it)
-        cands += [it for it in items[:6] if it not in cands]
+        step_ = max(1, len(items) // 12)
+        cands += [it for it in items[::step_][:14] if it not in cands]   # (spread over the group, not its first few)
         fam, d = cands[0]
         path = os.path.join(rdir, "v%03d.json" % n)
         def dump(fam_, d_):
@@ -1469,7 +1470,7 @@ def conclude(prop, tier, results, known, outdir, t0):
             # report only what an immediate re-run repeats (guards against the environment, DESIGN 5.8)
             if d.get("script") is not None and d.get("kind") not in ("contract", "threads", "rejected", "optprod") and d.get("fn") != "wincmd":
                 repeated = False
-                for fam_, d_ in cands[:8]:
+                for fam_, d_ in cands[:16]:
                     dump(fam_, d_)
                     if replay(path, quiet=True) != 0:
                         repeated = True; fam, d = fam_, d_
